@@ -251,7 +251,13 @@ func rootLeafRule(c *an.Ctx, rootID, leafID string, only func(f *an.Fn) bool, mi
 		n++
 		c.FnsAnalysed[f.Name] = true
 		gen := func(o types.Object) string { return fmt.Sprintf("gen:%s·%d", o.Name(), int(o.Pos())) }
-		rootOf := func(o types.Object) string { return fmt.Sprintf("rootof:%s·%d", o.Name(), int(o.Pos())) }
+		rootOf := func(o types.Object) string {
+			if o == nil {
+				return "rootof:?"
+			}
+			return fmt.Sprintf("rootof:%s·%d", o.Name(), int(o.Pos()))
+		}
+		chainEnd := func(o types.Object) string { return fmt.Sprintf("end:%s·%d", o.Name(), int(o.Pos())) }
 		type verdict struct {
 			bad   bool
 			msg   string
@@ -286,7 +292,16 @@ func rootLeafRule(c *an.Ctx, rootID, leafID string, only func(f *an.Fn) bool, mi
 				if o == nil {
 					return
 				}
+				if rhs != nil {
+					// root2 := root : the copy denotes the same list
+					if rid, ok := an.Unparen(rhs).(*ast.Ident); ok {
+						if ro := st.Get(rootOf(an.ObjOf(info, rid))); ro != "" {
+							st.Set(rootOf(o), ro)
+						}
+					}
+				}
 				if an.NamedOf(o.Type()) == tmpl && rhs != nil {
+					st.Set(chainEnd(o), "") // whatever was known about the end of the chain concerned the old value
 					// t = t.extends advances the generation; any other assignment (t, err := GetTemplate) resets
 					if p.FieldKey(info, rhs) == "Template.extends" {
 						if st.Int(gen(o)) < 2 { // capped: 0 = incoming template, 1 = advanced once, 2 = advanced more often
@@ -304,6 +319,21 @@ func rootLeafRule(c *an.Ctx, rootID, leafID string, only func(f *an.Fn) bool, mi
 						st.Set(rootOf(o), fmt.Sprintf("%s·%d@%d", bo.Name(), int(bo.Pos()), st.Int(gen(bo))))
 					} else {
 						st.Set(rootOf(o), "expr:"+an.Str(base))
+					}
+				}
+			},
+			Branch: func(x *an.Explorer, cond ast.Expr, val bool, st *an.State) {
+				// X.extends == nil established (true branch of ==, false branch of !=): X is the end of its chain
+				b, ok := an.Unparen(cond).(*ast.BinaryExpr)
+				if !ok || (b.Op != token.EQL && b.Op != token.NEQ) || an.Str(b.Y) != "nil" || p.FieldKey(info, b.X) != "Template.extends" {
+					return
+				}
+				if val != (b.Op == token.EQL) {
+					return
+				}
+				if id, ok := an.Unparen(an.Unparen(b.X).(*ast.SelectorExpr).X).(*ast.Ident); ok {
+					if o := an.ObjOf(info, id); o != nil {
+						st.Set(chainEnd(o), fmt.Sprintf("@%d", st.Int(gen(o))))
 					}
 				}
 			},
@@ -326,40 +356,27 @@ func rootLeafRule(c *an.Ctx, rootID, leafID string, only func(f *an.Fn) bool, mi
 					return
 				}
 				arg := an.Unparen(call.Args[0])
-				var owner types.Object
+				// whose Root is executed, and at which generation of that template variable
+				who := ""
 				switch a := arg.(type) {
 				case *ast.SelectorExpr: // X.Root
 					if id, ok := an.Unparen(a.X).(*ast.Ident); ok {
-						owner = an.ObjOf(info, id)
-					}
-				case *ast.Ident: // root variable
-					ro := st.Get(rootOf(an.ObjOf(info, a)))
-					// must name a template variable at its current generation
-					for _, cand := range templateVars(f, info, tmpl) {
-						if ro == fmt.Sprintf("%s·%d@%d", cand.Name(), int(cand.Pos()), st.Int(gen(cand))) {
-							owner = cand
+						if o := an.ObjOf(info, id); o != nil {
+							who = fmt.Sprintf("%s·%d@%d", o.Name(), int(o.Pos()), st.Int(gen(o)))
 						}
 					}
-					if owner == nil {
-						v.bad, v.msg, v.trail = true, fmt.Sprintf("the list executed (%s) is the Root of %q, which is not the template the extends chain was walked to", a.Name, strings.SplitN(ro, "·", 2)[0]), an.Facts(st)
-						return
-					}
+				case *ast.Ident: // root variable
+					who = st.Get(rootOf(an.ObjOf(info, a)))
 				}
-				if owner == nil {
+				if who == "" || strings.HasPrefix(who, "expr:") {
 					v.bad, v.msg = true, "cannot tell whose Root "+an.Str(arg)+" is"
 					return
 				}
-				// fact owner.extends == nil
-				want := fmt.Sprintf("%s·%d.extends == nil", owner.Name(), int(owner.Pos()-f.Pos()))
-				holds := false
-				for k, val := range st.Facts {
-					if val && (k == want || k == "nil == "+strings.TrimSuffix(want, " == nil")) {
-						holds = true
-					}
-				}
-				if !holds {
+				at := strings.LastIndex(who, "@")
+				name := strings.SplitN(who, "·", 2)[0]
+				if st.Get("end:"+who[:at]) != who[at:] {
 					v.bad, v.trail = true, an.Facts(st)
-					v.msg = fmt.Sprintf("%s.Root is executed on a path where %s.extends may still be non-nil: an extending template's own body is rendered instead of the root layout's", owner.Name(), owner.Name())
+					v.msg = fmt.Sprintf("%s.Root is executed on a path where %s.extends may still be non-nil (or %s was advanced since its Root was taken): an extending template's own body is rendered instead of the root layout's", name, name, name)
 				}
 			},
 		}
@@ -417,14 +434,37 @@ func templateVars(f *an.Fn, info *types.Info, tmpl *types.Named) []types.Object 
 }
 
 // rootVar: the argument is a local variable some definition of which is <template>.Root
-func rootVar(p *an.Prog, f *an.Fn, e ast.Expr) bool {
-	id, ok := an.Unparen(e).(*ast.Ident)
-	if !ok {
+func rootVar(p *an.Prog, f *an.Fn, e ast.Expr) bool { return rootExpr(p, f, e, 0) }
+
+// rootExpr: e denotes some template's Root list — X.Root itself, a local defined from one, or the
+// result of a new helper all of whose returns are such expressions.
+func rootExpr(p *an.Prog, f *an.Fn, e ast.Expr, depth int) bool {
+	if depth > 4 {
 		return false
 	}
-	for _, d := range an.LocalDefs(f, an.ObjOf(f.Info(), id)) {
-		if d != nil && p.FieldKey(f.Info(), d) == "Template.Root" {
-			return true
+	info := f.Info()
+	switch v := an.Unparen(e).(type) {
+	case *ast.SelectorExpr:
+		return p.FieldKey(info, v) == "Template.Root"
+	case *ast.Ident:
+		for _, d := range an.LocalDefs(f, an.ObjOf(info, v)) {
+			if d != nil && rootExpr(p, f, d, depth+1) {
+				return true
+			}
+		}
+	case *ast.CallExpr:
+		if h := p.NewHelperCallee(f, v); h != nil {
+			n, ok := 0, true
+			an.InspectBody(h, func(m ast.Node) bool {
+				if ret, isRet := m.(*ast.ReturnStmt); isRet && len(ret.Results) == 1 {
+					n++
+					if !rootExpr(p, h, ret.Results[0], depth+1) {
+						ok = false
+					}
+				}
+				return true
+			})
+			return ok && n > 0
 		}
 	}
 	return false
@@ -444,7 +484,7 @@ func c08lookup(c *an.Ctx) {
 		c.Anchor("C08.lookup", "case NodeBlock in executeList")
 	} else {
 		var yb *ast.CallExpr
-		ast.Inspect(cc, func(n ast.Node) bool {
+		armInspect(el, cc, func(n ast.Node) bool {
 			if call, ok := n.(*ast.CallExpr); ok && an.IsCallTo(info, call, yieldFn) {
 				yb = call
 			}
@@ -459,7 +499,7 @@ func c08lookup(c *an.Ctx) {
 				var fromGet, fromNode, other int
 				var hasVar types.Object
 				var nodeGuardOK bool
-				ast.Inspect(cc, func(n ast.Node) bool {
+				armInspect(el, cc, func(n ast.Node) bool {
 					as, isAs := n.(*ast.AssignStmt)
 					if !isAs {
 						return true
@@ -525,7 +565,7 @@ func c08lookup(c *an.Ctx) {
 		c.Anchor("C08.lookup", "case NodeYield in executeList")
 	} else {
 		var yb *ast.CallExpr
-		ast.Inspect(cc, func(n ast.Node) bool {
+		armInspect(el, cc, func(n ast.Node) bool {
 			if call, ok := n.(*ast.CallExpr); ok && an.IsCallTo(info, call, yieldFn) {
 				yb = call
 			}
